@@ -434,3 +434,31 @@ MUTANTS += [
      "edits": [(E, "            for c in [r, g, b] {\n                write!(chunks, \"{}\", c)?;\n                chunks.mark();\n            }",
                 "            for c in [r, g, b] {\n                let mut digits = Vec::new();\n                if c > 100 {\n                    digits.push(b'0' + c / 100);\n                }\n                if c > 10 {\n                    digits.push(b'0' + c / 10 % 10);\n                }\n                digits.push(b'0' + c % 10);\n                chunks.push(&digits);\n            }")]},
 ]
+
+# ---- Char written without the fmt machinery: the UTF-8 encoding through encode_utf8 / to_string (what Display of a char writes);
+# ---- and the same shapes writing something else (first byte only, a buffer too small for 3- and 4-byte characters)
+_CHAR_ARM = 'Char(c) => write!(out, "{}", c)?,'
+MUTANTS += [
+    {"id": "C06-benign-char-encode-utf8", "prop": "C06", "benign": True,
+     "edits": [(E, _CHAR_ARM, "Char(c) => out.write_all(c.encode_utf8(&mut [0u8; 4]).as_bytes())?,")]},
+    {"id": "C06-benign-char-to-string-bytes", "prop": "C06", "benign": True,
+     "edits": [(E, _CHAR_ARM, "Char(c) => out.write_all(c.to_string().as_bytes())?,")]},
+    {"id": "C06-benign-char-encode-utf8-larger-buffer", "prop": "C06", "benign": True,
+     "edits": [(E, _CHAR_ARM, "Char(c) => out.write_all(c.encode_utf8(&mut [0; 8]).as_bytes())?,")]},
+    {"id": "C06-char-first-byte-only", "prop": "C06", "expect": "CHAR-VERBATIM/",
+     "edits": [(E, _CHAR_ARM, "Char(c) => out.write_all(&c.encode_utf8(&mut [0u8; 4]).as_bytes()[..1])?,")]},
+    {"id": "C06-char-encode-utf8-short-buffer", "prop": "C06", "expect": "CHAR-VERBATIM/",
+     "edits": [(E, _CHAR_ARM, "Char(c) => out.write_all(c.encode_utf8(&mut [0u8; 2]).as_bytes())?,")]},
+]
+MUTANTS += [
+    {"id": "C06-benign-char-string-from-bytes", "prop": "C06", "benign": True,
+     "edits": [(E, _CHAR_ARM, "Char(c) => out.write_all(String::from(c).as_bytes())?,")]},
+    {"id": "C06-benign-char-to-string-into-bytes", "prop": "C06", "benign": True,
+     "edits": [(E, _CHAR_ARM, "Char(c) => out.write_all(&c.to_string().into_bytes())?,")]},
+    {"id": "C06-benign-char-display-of-encoded-str", "prop": "C06", "benign": True,
+     "edits": [(E, _CHAR_ARM, 'Char(c) => write!(out, "{}", c.encode_utf8(&mut [0u8; 4]))?,')]},
+    {"id": "C06-benign-char-inline-format-arg", "prop": "C06", "benign": True,
+     "edits": [(E, _CHAR_ARM, 'Char(c) => write!(out, "{c}")?,')]},
+    {"id": "C06-char-debug-of-encoded-str", "prop": "C06", "expect": "CHAR-VERBATIM/",
+     "edits": [(E, _CHAR_ARM, 'Char(c) => write!(out, "{:?}", c.encode_utf8(&mut [0u8; 4]))?,')]},
+]
